@@ -25,6 +25,7 @@ mod c15b;
 mod c15_repro;
 mod c16;
 mod c17;
+mod c17fs;
 mod c18;
 mod c20;
 mod c20x;
@@ -81,6 +82,7 @@ fn main() {
         "c20" => c20::run(&rest),
         "c16" => c16::run(&rest),
         "c17" => c17::run(&rest),
+        "c17fs" => c17fs::run(&rest),
         "c18" => c18::run(&rest),
         "truth" => truth::run(&rest),
         _ => {
